@@ -1,5 +1,6 @@
 """Shared by C01/C02/C03/C04/C12: canonical forms of address, instance and
 command objects of the real library, and a parallel compare helper."""
+from common import exc_name  # noqa: E402
 import multiprocessing as mp
 import os
 import subprocess
@@ -70,14 +71,14 @@ def cmd_canon(fn):
             fr = c.frame
             fs = "ok %d %d" % (len(fr), fr.as_integer)
         except Exception as e:  # noqa
-            fs = "err " + type(e).__name__
+            fs = "err " + exc_name(e)
         try:
             s = str(c).replace(" ", "_")
         except Exception as e:  # noqa
-            s = "STR-RAISED:" + type(e).__name__
+            s = "STR-RAISED:" + exc_name(e)
         return "%s|%s|%s" % (clsname(c), fs, s)
     except Exception as e:  # noqa
-        return "RAISED " + type(e).__name__
+        return "RAISED " + exc_name(e)
 
 
 def map_tok(m):
